@@ -724,6 +724,10 @@ func unescapeBackTickSpecialStr(l *syntax.Lexer, srcLiteral []rune) []rune {
 			} else {
 				goto UNDONE_end
 			}
+		case syntax.RuneCR, syntax.RuneLF, syntax.RuneEOF:
+			// a line break is never part of an escape: leave it to parseString, which
+			// records the new line (otherwise all following line numbers are one short)
+			goto UNDONE_end
 		}
 
 		cch := l.Next()
